@@ -2,6 +2,7 @@ package props
 
 import (
 	"bytes"
+	"errors"
 	"fmt"
 	"github.com/pion/turn/v5"
 	"math/rand"
@@ -205,6 +206,29 @@ func (x *c19) allocateAndProbe(c *sim.RawClient, peer *sim.Peer, opts sim.AllocO
 	c.AddAuth(b)
 	rawReq := b.Bytes()
 	callsBefore := x.w.Gen.CallCount("udp")
+	if !c.IsTCP && c.Listener < len(x.w.ServerUDP) && x.rng.Intn(6) == 0 {
+		// the server's socket fails to send the Allocate success (ENOBUFS, say): the allocation
+		// exists, the client saw nothing and retransmits - and must get the success it missed
+		sock := x.w.ServerUDP[c.Listener]
+		failed := false
+		sock.SetWriteHook(func(b []byte, _ net.Addr) (int, error, bool) {
+			if m, err := wire.ParseSTUN(b); err == nil && m.TID == tid && !failed {
+				failed = true
+
+				return 0, errors.New("injected: no buffer space available"), true
+			}
+
+			return 0, nil, false
+		})
+		x.m.Track(c, tid, wire.MethodAllocate)
+		lost := c.Exchange(rawReq, tid)
+		sock.SetWriteHook(nil)
+		x.m.Audit(nil)
+		if lost == nil && failed {
+			x.m.Retransmitted(c, tid)
+			x.rec.FP("allocate/success-lost-at-the-server-socket")
+		}
+	}
 	// go through the model so that it learns the allocation: re-implemented here to keep the tid
 	resp := x.m.AllocateRaw(c, opts, rawReq, tid)
 	if resp == nil || resp.Class != wire.ClassSuccess {
